@@ -257,6 +257,37 @@ def shrink_history(chk, base, ops):
     return cur
 
 
+def tables_after_mismatch(chk):
+    """The version tables are the library's own: a connection that is refused for its version (server protocol unknown,
+    unsupported, or supported but not allowed) reports that - and leaves all seven tables exactly as they were."""
+    import minecraft as mc, sim, proto, builtins
+    from minecraft.networking.connection import Connection
+    before = observe(mc)
+    for server_pv, allowed in ((9999, [47, 757]), (3, [47, 757]), (47, [340, 757]), (1073741900, [47, 757]), (757, [47, 340])):
+        status = {'version': {'name': 'x', 'protocol': server_pv}, 'description': 'x'}
+        net = sim.Net([sim.Server([proto.frame(0, proto.string(json.dumps(status)))], end='idle'), sim.Server([], end='idle')]).install()
+        excs = []
+        rp = builtins.print
+        builtins.print = lambda *a, **k: None
+        try:
+            conn = Connection('localhost', 25565, username='user', allowed_versions=allowed, handle_exception=lambda e, i: excs.append(e))
+            conn.connect()
+            net.run_threads(conn)
+        finally:
+            builtins.print = rp
+            net.uninstall()
+        after = observe(mc)
+        chk.count('after-mismatch', [server_pv, allowed], True)
+        if after != before:
+            tn = next(n for n, a, b in zip(TABLES, after, before) if a != b)
+            d = next(i for i, (x, y) in enumerate(itertools.zip_longest(after[TABLES.index(tn)], before[TABLES.index(tn)])) if x != y)
+            chk.violation('after-mismatch', 'after-mismatch:%d' % server_pv, {'case': {'server_protocol': server_pv, 'allowed': allowed, 'reported': [exn_name(e) for e in excs]}, 'observed': tn},
+                          'after a connection refused for its version (server protocol %d, allowed %s, reported %s) %s differs from before at position %d' % (
+                              server_pv, allowed, [exn_name(e) for e in excs], tn, d))
+            mc.initglobals(use_known_records=True)
+            return
+
+
 def check_histories(chk):
     t = chk.tables
     shipped = [list(r) for r in t['records']]
@@ -321,6 +352,7 @@ def run(chk):
             chk.broken('Properties/C08.v', out)
     check_predicates(chk)
     check_histories(chk)
+    tables_after_mismatch(chk)
     chk.assumptions += ['release-id test re.match(r"\\d+(\\.\\d+)+$") is transliterated by the harness (gen.looks_like_release); ids are compared through an injective integer code',
                         'OrderedDict / dict / list semantics of CPython']
 
